@@ -16,6 +16,13 @@
 (*           split into a version-2 certificate) ; do_verify_attestation   *)
 (*                                                                         *)
 (* then load ; save of what was written and a second verification.         *)
+(*                                                                         *)
+(* The network is part of Env too: the user-defined (UD) value is either   *)
+(* typed by the operator or the hash of the best block of a Rootstock node *)
+(* (two JSON-RPC calls; the node may answer properly - possibly with the   *)
+(* chain growing or reorganising between the calls - or misbehave at       *)
+(* either call), and SGX verification reads the root of trust from a file  *)
+(* or fetches it from a URL (right PEM, another root, 404, garbage).       *)
 (* Messages are sequences of field ids, an altered field is "X", an        *)
 (* altered signature is NoSig (perfect cryptography, DESIGN.md 3.3).       *)
 (* Observations and properties come from AttestFlowProps, shared with the  *)
@@ -30,25 +37,30 @@ CONSTANTS Platforms,        \* subset of {"ledger", "sgx"}
           QeAuthSizes,      \* QE authentication data size classes {0, 1, 32, 1000}
           PemCounts,        \* certificates in the QE certification data {2, 3}
           MaxUiPages,       \* HSM2Dongle.MAX_PAGES_UI_ATT_MESSAGE
-          EmptyAuthRefused, \* TRUE: the gatherer refuses a 0-byte QE auth data (as the code does)
+          EmptyAuthRefused, \* TRUE: the gatherer refuses a 0-byte QE auth data (as the code did)
+          UdSources,        \* subset of {"hex", "node"}
+          RootVias,         \* subset of {"file", "url"}   (SGX verification)
           Bug               \* "none" | a seeded defect of Sys (negative configurations only)
 
 VARIABLES dev, cfg, alt,    \* Env: ground truth, shape of the answers, the one alteration
+          net,              \* Env: [ud: "hex" | what the node does, at: which call, rootvia: "file" | "url"]
           pc, acc,          \* Sys: program counter, what was gathered so far
           obs               \* the observation (AttestFlowProps)
-vars == <<dev, cfg, alt, pc, acc, obs>>
+vars == <<dev, cfg, alt, net, pc, acc, obs>>
 
 (***************************************************************************)
 (* Ground truth of a genuine device.                                       *)
 (***************************************************************************)
 Keys2 == << <<"p_btc", "k_btc">>, <<"p_rsk", "k_rsk">> >>
-LedgerDev(fr) ==
-    [plat |-> "ledger", framing |-> fr, ud |-> "ud", btc_c |-> "k_btc", auth_hash |-> "h_sg",
+\* the UD value the run is about: typed, or the hash the node reports for block n at the second call
+UdTruth(nt) == IF nt.ud = "reorg" THEN "h_n_new" ELSE IF nt.ud \in ProperNode THEN "h_n" ELSE "ud"
+LedgerDev(fr, nt) ==
+    [plat |-> "ledger", framing |-> fr, ud |-> UdTruth(nt), btc_c |-> "k_btc", auth_hash |-> "h_sg",
      iter |-> "iter", ui_hash |-> "h_ui", ui_ver |-> "v_ui", keys |-> Keys2, pkhash |-> "pkh",
      signer_hash |-> "h_sg", s_ver |-> "v_sg", platform |-> "led", best |-> "bb", ltx |-> "ltx",
      ts |-> "ts", mrenclave |-> "", mrsigner |-> ""]
-SgxDev ==
-    [plat |-> "sgx", framing |-> "current", ud |-> "ud", btc_c |-> "", auth_hash |-> "", iter |-> "",
+SgxDev(nt) ==
+    [plat |-> "sgx", framing |-> "current", ud |-> UdTruth(nt), btc_c |-> "", auth_hash |-> "", iter |-> "",
      ui_hash |-> "", ui_ver |-> "", keys |-> Keys2, pkhash |-> "pkh", signer_hash |-> "",
      s_ver |-> "v_sg", platform |-> "sgx", best |-> "bb", ltx |-> "ltx", ts |-> "ts",
      mrenclave |-> "mre", mrsigner |-> "mrs"]
@@ -57,6 +69,29 @@ LedgerCfgs(fr) == {[uip |-> u, sp |-> IF fr = "legacy" THEN 1 ELSE s, ep |-> 0, 
                      u \in PageCounts, s \in PageCounts}
 SgxCfgs == {[uip |-> 0, sp |-> s, ep |-> e, qeauth |-> q, npem |-> n] :
               s \in PageCounts, e \in EnvPages, q \in QeAuthSizes, n \in PemCounts}
+\* one plain shape per platform, for the runs that are about the network rather than about the device
+Cfg1(p, fr) == IF p = "ledger" THEN [uip |-> 1, sp |-> 1, ep |-> 0, qeauth |-> 0, npem |-> 0]
+               ELSE [uip |-> 0, sp |-> 1, ep |-> 1, qeauth |-> 32, npem |-> 2]
+
+(***************************************************************************)
+(* The network: where the UD value comes from, where the root comes from.  *)
+(***************************************************************************)
+BadAny == {"status", "badid", "notjson", "noresult"}      \* at either call
+Bad1   == {"nothex"}                                        \* block number not hexadecimal
+Bad2   == {"nohash", "nullblock", "hashlen", "hashnothex", "hashnoprefix"}
+NodeChoices == {<<b, 0>> : b \in ProperNode} \cup {<<b, k>> : b \in BadAny, k \in {1, 2}}
+               \cup {<<b, 1>> : b \in Bad1} \cup {<<b, 2>> : b \in Bad2}
+Net(u, k, via) == [ud |-> u, at |-> k, rootvia |-> via]
+\* the network dimension is explored on genuine devices (all shapes with a proper node or a root by
+\* URL; the plain shape with a misbehaving node); a root of trust that is altered is also served by URL
+Nets(p, fr, c, a) ==
+    (IF a.site = "root" /\ a.idx \in {4, 5} THEN {} ELSE {Net("hex", 0, "file")})
+    \cup (IF "node" \in UdSources /\ a = [site |-> "none", idx |-> 0]
+          THEN {Net(x[1], x[2], "file") : x \in {y \in NodeChoices : y[1] \in ProperNode \/ c = Cfg1(p, fr)}}
+          ELSE {})
+    \cup (IF p = "sgx" /\ "url" \in RootVias
+             /\ (a = [site |-> "none", idx |-> 0] \/ (a.site = "root" /\ c = Cfg1(p, fr)))
+          THEN {Net("hex", 0, "url")} ELSE {})
 
 (***************************************************************************)
 (* The one altered thing: [site, idx]; idx = field index / page / variant. *)
@@ -79,7 +114,8 @@ SgxAlts(c) ==
     \cup (IF c.qeauth > 0 THEN A0({"qe_auth"}) ELSE {})
     \cup AI("cm_fld", 1..8)                   \* the enclave's buffer: message and envelope tail alike
     \cup AI("cm_msg", {1, 8}) \cup AI("cm_env", {1, 8})     \* one of the two transmissions only
-    \cup AI("root", {1, 2, 3})                 \* another self-signed root, TBS byte, signature byte
+    \cup AI("root", {1, 2, 3, 4, 5})           \* another self-signed root, TBS byte, signature byte;
+                                               \* by URL only: 4 = HTTP 404, 5 = a body that is no PEM
 
 Is(site) == alt.site = site
 
@@ -97,8 +133,9 @@ AlterLast(s) == SetTok(s, Len(s))
 (***************************************************************************)
 DevMsg  == <<"02", "hdr", "k_dev">>
 EndoMsg == <<"ff", "k_att">>
-UiMsg   == <<"HSM:UI:", dev.ui_ver, dev.ud, dev.btc_c, dev.auth_hash, dev.iter>>
-PowMsg  == <<"POWHSM:", dev.s_ver, dev.platform, dev.ud, dev.pkhash, dev.best, dev.ltx, dev.ts>>
+\* the device signs the UD value it is HANDED (acc.ud), which need not be the one intended (dev.ud)
+UiMsg   == <<"HSM:UI:", dev.ui_ver, acc.ud, dev.btc_c, dev.auth_hash, dev.iter>>
+PowMsg  == <<"POWHSM:", dev.s_ver, dev.platform, acc.ud, dev.pkhash, dev.best, dev.ltx, dev.ts>>
 SgMsg   == IF dev.framing = "legacy" THEN <<"HSM:SIGNER:", dev.s_ver, dev.pkhash>> ELSE PowMsg
 
 AnsDevKey == [hdr |-> IF Is("dc_hdr") THEN "X" ELSE "hdr",
@@ -154,6 +191,30 @@ RootCertGiven == IF ~Is("root") THEN Cert("root", "k_root", "k_root")
                  ELSE IF alt.idx = 1 THEN Cert("root", "k_other", "k_other")
                  ELSE IF alt.idx = 2 THEN [Cert("root", "k_root", "k_root") EXCEPT !.tbs = SetTok(@, 1)]
                  ELSE [Cert("root", "k_root", "k_root") EXCEPT !.sig = NoSig]
+\* what the web server answers to the GET of the root of trust
+RootGet == [status |-> IF Is("root") /\ alt.idx = 4 THEN "404" ELSE "200",
+            pem    |-> ~(Is("root") /\ alt.idx = 5)]
+
+(***************************************************************************)
+(* Env: the Rootstock node.  An HTTP answer is [status, json, id, result]; *)
+(* the result of the second call is a block [kind, prefix, body, ok32].    *)
+(***************************************************************************)
+NoBlock == [kind |-> "none", prefix |-> TRUE, body |-> "", ok32 |-> FALSE]
+Answer(k, result, block) ==
+    [status |-> IF net.ud = "status" /\ net.at = k THEN "500" ELSE "200",
+     json   |-> ~(net.ud = "notjson" /\ net.at = k),
+     id     |-> IF net.ud = "badid" /\ net.at = k THEN "other" ELSE "same",
+     result |-> IF net.ud = "noresult" /\ net.at = k THEN "missing" ELSE result,
+     block  |-> block]
+NodeAns1 == Answer(1, IF net.ud = "nothex" THEN "nz" ELSE "0xn", NoBlock)
+\* the block the node holds at height n when the second call arrives
+NodeAns2(asked) ==
+    IF asked # "0xn" THEN Answer(2, "null", NoBlock)
+    ELSE Answer(2, IF net.ud = "nullblock" THEN "null" ELSE "block",
+                [kind   |-> IF net.ud = "nohash" THEN "nohash" ELSE "block",
+                 prefix |-> net.ud # "hashnoprefix",
+                 body   |-> IF net.ud = "reorg" THEN "h_n_new" ELSE "h_n",
+                 ok32   |-> net.ud \notin {"hashlen", "hashnothex"}])
 
 (***************************************************************************)
 (* Sys.                                                                    *)
@@ -161,10 +222,15 @@ RootCertGiven == IF ~Is("root") THEN Cert("root", "k_root", "k_root")
 El(n, by, tw, msg, sig, aux) == [name |-> n, by |-> by, tw |-> tw, msg |-> msg, sig |-> sig, aux |-> aux]
 ElOf(file, n) == LET I == {i \in 1..Len(file) : file[i].name = n} IN file[CHOOSE i \in I : TRUE]
 Has(file, n) == \E i \in 1..Len(file) : file[i].name = n
-Acc0 == [dc |-> [hdr |-> "", key |-> "", sig |-> NoSig], en |-> [key |-> "", sig |-> NoSig],
+Acc0 == [ud |-> "", n |-> "", dc |-> [hdr |-> "", key |-> "", sig |-> NoSig], en |-> [key |-> "", sig |-> NoSig],
          ui_hash |-> "", ui_msg |-> <<>>, ui_sig |-> NoSig, s_sig |-> NoSig, s_msg |-> <<>>,
          s_env |-> <<>>, s_hash |-> "", page |-> 1]
-Obs0(p, d, a) == [plat |-> p, framing |-> d.framing, alt |-> a.site, dev |-> d,
+Obs0(p, d, a, nt) ==
+                 [udsrc |-> IF nt.ud = "hex" THEN "hex" ELSE "node", node |-> nt.ud, node_at |-> nt.at,
+                  node_n |-> "0xn", node_url |-> "node_url", rootvia |-> nt.rootvia, root_url |-> "root_url",
+                  http |-> <<>>, ud_sent |-> "", att_file |-> "no", contacted |-> "no",
+                  g_err |-> "none", v_err |-> "none",
+                  plat |-> p, framing |-> d.framing, alt |-> a.site, dev |-> d,
                   g_onboard |-> "na", g_attest |-> "na", gather |-> "fail",
                   file0 |-> <<>>, reload0 |-> <<>>, file |-> <<>>, reload |-> <<>>, reload_ok |-> "na",
                   verify |-> "na", printed |-> NoPrinted, verify2 |-> "na", printed2 |-> NoPrinted]
@@ -173,16 +239,47 @@ Init == /\ acc = Acc0
         /\ \E p \in Platforms :
              IF p = "ledger"
              THEN \E fr \in Framings : \E c \in LedgerCfgs(fr) : \E a \in LedgerAlts(fr, c) :
-                    /\ dev = LedgerDev(fr) /\ cfg = c /\ alt = a /\ pc = "onboard"
-                    /\ obs = Obs0(p, LedgerDev(fr), a)
-             ELSE \E c \in SgxCfgs : \E a \in SgxAlts(c) :
-                    /\ dev = SgxDev /\ cfg = c /\ alt = a /\ pc = "sx_unlock"
-                    /\ obs = Obs0(p, SgxDev, a)
+                  \E nt \in Nets(p, fr, c, a) :
+                    /\ dev = LedgerDev(fr, nt) /\ cfg = c /\ alt = a /\ net = nt /\ pc = "onboard"
+                    /\ obs = Obs0(p, LedgerDev(fr, nt), a, nt)
+             ELSE \E c \in SgxCfgs : \E a \in SgxAlts(c) : \E nt \in Nets(p, "current", c, a) :
+                    /\ dev = SgxDev(nt) /\ cfg = c /\ alt = a /\ net = nt /\ pc = "ud"
+                    /\ obs = Obs0(p, SgxDev(nt), a, nt)
 
 Go(p) == pc' = p
-Keep == UNCHANGED <<dev, cfg, alt>>
+Keep == UNCHANGED <<dev, cfg, alt, net>>
 FailOnboard == /\ obs' = [obs EXCEPT !.g_onboard = "fail"] /\ Go("done")
-FailAttest  == /\ obs' = [obs EXCEPT !.g_attest = "fail"] /\ Go("done")
+FailAttest  == /\ obs' = [obs EXCEPT !.g_attest = "fail", !.g_err = "AdminError"] /\ Go("done")
+
+\* ---- both: get_ud_value_for_attestation (before the device is touched) ----------------
+AfterUd == IF obs.plat = "ledger" THEN "unlock" ELSE "sx_unlock"
+Rpc(m, ps) == [verb |-> "post", url |-> "node_url", ctype |-> "application/json", version |-> "2.0",
+               idkind |-> "int", method |-> m, params |-> ps]
+\* RskClient._request: any of these ends in RskClientError, which becomes an AdminError
+RpcFails(r) == \/ (r.status # "200" /\ Bug # "nostatus") \/ ~r.json
+               \/ (r.id # "same" /\ Bug # "noidcheck") \/ r.result = "missing"
+UdFails(kind) == /\ obs' = [obs EXCEPT !.g_attest = "fail", !.g_err = kind,
+                                        !.http = Append(@, IF pc = "ud" THEN Rpc("eth_blockNumber", <<>>)
+                                                           ELSE Rpc("eth_getBlockByNumber", <<acc.n, "false">>))]
+                 /\ Go("done") /\ UNCHANGED acc
+GetUdTyped == /\ pc = "ud" /\ net.ud = "hex" /\ acc' = [acc EXCEPT !.ud = "ud"]
+              /\ Go(AfterUd) /\ Keep /\ UNCHANGED obs
+NodeCall1 == /\ pc = "ud" /\ net.ud # "hex" /\ Keep
+             /\ LET r == NodeAns1 IN
+                IF RpcFails(r) \/ r.result # "0xn"            \* int(result, 16) inside the client's try
+                THEN UdFails("AdminError")
+                ELSE /\ acc' = [acc EXCEPT !.n = r.result] /\ Go("ud2")
+                     /\ obs' = [obs EXCEPT !.http = Append(@, Rpc("eth_blockNumber", <<>>))]
+\* best_block["hash"][2:] and the 32-byte check happen OUTSIDE the client's try: a null block, a block
+\* without hash or a malformed hash escape as TypeError / KeyError / ValueError (as the code is)
+NodeCall2 == /\ pc = "ud2" /\ Keep
+             /\ LET r == NodeAns2(acc.n)
+                    b == r.block
+                    stripped_ok == IF Bug = "udslice" THEN ~b.prefix /\ b.ok32 ELSE b.prefix /\ b.ok32
+                IN IF RpcFails(r) THEN UdFails("AdminError")
+                   ELSE IF r.result = "null" \/ b.kind # "block" \/ ~stripped_ok THEN UdFails("raw")
+                   ELSE /\ acc' = [acc EXCEPT !.ud = b.body] /\ Go(AfterUd)
+                        /\ obs' = [obs EXCEPT !.http = Append(@, Rpc("eth_getBlockByNumber", <<acc.n, "false">>))]
 \* load ; save of a certificate document: the model abstracts the JSON encoding away
 Reloaded(file) == file
 
@@ -201,12 +298,13 @@ SaveAttCert == /\ pc = "save0"
                /\ Go("load0") /\ Keep /\ UNCHANGED acc
 
 \* ---- Ledger: do_attestation ----------------------------------------
-LoadAttCert == pc = "load0" /\ Go("unlock") /\ Keep /\ UNCHANGED <<acc, obs>>
-Unlock    == pc = "unlock" /\ Go("ui_hash") /\ Keep /\ UNCHANGED <<acc, obs>>
+LoadAttCert == pc = "load0" /\ Go("ud") /\ Keep /\ UNCHANGED <<acc, obs>>
+Unlock    == /\ pc = "unlock" /\ Go("ui_hash") /\ Keep /\ UNCHANGED acc
+             /\ obs' = [obs EXCEPT !.contacted = "yes"]
 UiAppHash == /\ pc = "ui_hash" /\ acc' = [acc EXCEPT !.ui_hash = AnsUiHash]
              /\ Go("ui_ud") /\ Keep /\ UNCHANGED obs
 UiUd      == /\ pc = "ui_ud" /\ acc' = [acc EXCEPT !.page = 1, !.ui_msg = <<>>]
-             /\ Go("ui_page") /\ Keep /\ UNCHANGED obs
+             /\ Go("ui_page") /\ Keep /\ obs' = [obs EXCEPT !.ud_sent = acc.ud]
 PageLimit == IF Bug = "maxpages" THEN MaxUiPages - 1 ELSE MaxUiPages
 UiPage    == /\ pc = "ui_page" /\ Keep
              /\ IF acc.page > PageLimit
@@ -252,7 +350,7 @@ File1 == obs.file0 \o
             El("signer", "attestation", IF Bug = "wrongtweak" THEN acc.ui_hash ELSE acc.s_hash,
                IF Bug = "swapmsg" THEN acc.ui_msg ELSE acc.s_msg, acc.s_sig, <<>>) >>
 SaveCert  == /\ pc = "save1"
-             /\ obs' = [obs EXCEPT !.g_attest = "ok", !.gather = "ok", !.file = File1,
+             /\ obs' = [obs EXCEPT !.g_attest = "ok", !.gather = "ok", !.file = File1, !.att_file = "yes",
                                    !.reload = Reloaded(File1), !.reload_ok = "ok"]
              /\ Go("verify") /\ Keep /\ UNCHANGED acc
 
@@ -288,9 +386,10 @@ VerifyLedger(file) ==
        ELSE [ok |-> "fail", printed |-> NoPrinted]
 
 \* ---- SGX: do_attestation ----------------------------------------
-SxUnlock  == pc = "sx_unlock" /\ Go("sx_get") /\ Keep /\ UNCHANGED <<acc, obs>>
+SxUnlock  == /\ pc = "sx_unlock" /\ Go("sx_get") /\ Keep /\ UNCHANGED acc
+             /\ obs' = [obs EXCEPT !.contacted = "yes"]
 SxGet     == /\ pc = "sx_get" /\ acc' = [acc EXCEPT !.page = 1, !.s_msg = <<>>]
-             /\ Go("sx_msg") /\ Keep /\ UNCHANGED obs
+             /\ Go("sx_msg") /\ Keep /\ obs' = [obs EXCEPT !.ud_sent = acc.ud]
 SxMsgPage == /\ pc = "sx_msg" /\ Keep /\ UNCHANGED obs
              /\ LET more == acc.page < cfg.sp IN
                 /\ acc' = [acc EXCEPT !.s_msg = @ \o PageOf(MsgBuf, cfg.sp, acc.page),
@@ -317,11 +416,14 @@ FileX == LET p == EnvParts IN
             El("platform_ca", "sgx_root", "none",
                IF Bug = "swapmsg" THEN p.pck.tbs ELSE p.pca.tbs, p.pca.sig, <<>>) >>
 SxSave    == /\ pc = "sx_save"
-             /\ obs' = [obs EXCEPT !.g_attest = "ok", !.gather = "ok", !.file = FileX,
+             /\ obs' = [obs EXCEPT !.g_attest = "ok", !.gather = "ok", !.file = FileX, !.att_file = "yes",
                                    !.reload = Reloaded(FileX), !.reload_ok = "ok"]
              /\ Go("verify") /\ Keep /\ UNCHANGED acc
 
 \* ---- SGX: do_verify_attestation ----------------------------------------
+\* get_root_of_trust: from the file, or GET the URL (status must be 200, the body must be a PEM
+\* certificate); every failure here is reported as an AdminError by the verify command
+RootFetched == net.rootvia = "file" \/ (RootGet.status = "200" /\ RootGet.pem)
 VerifySgx(file) ==
     LET rc == RootCertGiven
         q == ElOf(file, "quote")  a == ElOf(file, "attestation")
@@ -335,7 +437,7 @@ VerifySgx(file) ==
                  /\ (Bug = "nobind" \/ HashOf(cm) = q.msg[5])
                  /\ Verifies(q.sig, a.aux[1][1], "none", q.msg)
         msgok == Len(cm) = 8 /\ cm[1] = "POWHSM:" /\ cm[5] = "pkh"
-    IN IF chain /\ msgok
+    IN IF RootFetched /\ chain /\ msgok
        THEN [ok |-> "ok",
              printed |-> [NoPrinted EXCEPT !.keys = Keys2, !.pkhash = "pkh", !.s_ver = cm[2],
                                            !.s_plat = cm[3], !.s_ud = cm[4], !.s_best = cm[6],
@@ -345,17 +447,24 @@ VerifySgx(file) ==
 
 \* ---- both ----------------------------------------
 VerifyOf(file) == IF obs.plat = "ledger" THEN VerifyLedger(file) ELSE VerifySgx(file)
+RootGetCall == [verb |-> "get", url |-> "root_url", ctype |-> "", version |-> "", idkind |-> "none",
+                method |-> "", params |-> <<>>]
+Fetched(h) == IF net.rootvia = "url" THEN Append(h, RootGetCall) ELSE h
 Verify   == /\ pc = "verify" /\ Keep /\ UNCHANGED acc
-            /\ LET r == VerifyOf(obs.file) IN obs' = [obs EXCEPT !.verify = r.ok, !.printed = r.printed]
+            /\ LET r == VerifyOf(obs.file) IN
+               obs' = [obs EXCEPT !.verify = r.ok, !.printed = r.printed, !.http = Fetched(@),
+                                  !.v_err = IF r.ok = "ok" THEN "none" ELSE "AdminError"]
             /\ Go("reverify")
 Reverify == /\ pc = "reverify" /\ Keep /\ UNCHANGED acc
-            /\ LET r == VerifyOf(obs.reload) IN obs' = [obs EXCEPT !.verify2 = r.ok, !.printed2 = r.printed]
+            /\ LET r == VerifyOf(obs.reload) IN
+               obs' = [obs EXCEPT !.verify2 = r.ok, !.printed2 = r.printed, !.http = Fetched(@)]
             /\ Go("done")
 
 Next == \/ Onboard \/ Handshake \/ GetDeviceKey \/ SetupEndo \/ EndoAck \/ SaveAttCert
         \/ LoadAttCert \/ Unlock \/ UiAppHash \/ UiUd \/ UiPage \/ UiSig \/ ExitUi
         \/ SgGet \/ SgMsgPage \/ SgEnvPage \/ SgAppHash \/ HealthCheck \/ SaveCert
         \/ SxUnlock \/ SxGet \/ SxMsgPage \/ SxEnvPage \/ SxAppHash \/ SxParse \/ SxConvert \/ SxSave
+        \/ GetUdTyped \/ NodeCall1 \/ NodeCall2
         \/ Verify \/ Reverify
 Spec == Init /\ [][Next]_vars
 
@@ -370,6 +479,11 @@ GenuineVerifies     == Terminal => GenuineVerifiesP(obs)
 AlteredFails        == Terminal => AlteredFailsP(obs)
 Lossless            == Terminal => LosslessP(obs)
 ReloadedSameVerdict == Terminal => ReloadedSameVerdictP(obs)
+NodeProtocol        == Terminal => NodeProtocolP(obs)
+NodeBad             == Terminal => NodeBadP(obs)
+NodeBadStrict       == Terminal => NodeBadStrictP(obs)      \* violated, as the code is (Known2)
+UdDelivered         == Terminal => UdDeliveredP(obs)
+RootFetch           == Terminal => RootFetchP(obs)
 \* the run always ends (no step is ever stuck before "done")
 Progress == (pc # "done") => ENABLED Next
 
@@ -379,4 +493,9 @@ NeverGatherFails == ~(Terminal /\ obs.gather = "fail")
 NeverVerifyFails == ~(Terminal /\ obs.verify = "fail")
 NeverLegacy      == ~(Terminal /\ obs.framing = "legacy" /\ obs.verify = "ok")
 NeverFourPages   == ~(Terminal /\ cfg.uip = 4 /\ obs.verify = "ok")
+NeverNodeOk      == ~(Terminal /\ obs.udsrc = "node" /\ obs.verify = "ok")
+NeverReorgOk     == ~(Terminal /\ obs.node = "reorg" /\ obs.verify = "ok")
+NeverNodeFails   == ~(Terminal /\ obs.udsrc = "node" /\ obs.g_err # "none")
+NeverRootByUrl   == ~(Terminal /\ obs.rootvia = "url" /\ obs.verify = "ok")
+NeverRootUrlBad  == ~(Terminal /\ obs.rootvia = "url" /\ obs.verify = "fail")
 =============================================================================
